@@ -1,7 +1,7 @@
 (* a keyword handler accepts only values whose marked bytes all come from its keywords *)
 From Coq Require Import List NArith Bool.
 Import ListNotations.
-From BM Require Import Bytes Utf8 GenUnicode Strings Regex KwHandler DangerBytes.
+From BM Require Import Bytes Utf8 GenUnicode Strings Regex RecCheck RecCheckProofs RecCheckSafe KwHandler DangerBytes.
 From Coq Require String.
 Open Scope N_scope.
 
@@ -49,17 +49,21 @@ Section Env.
     | CCall _ => True
     | CIn kw => forall v, kw_handler kw v = true -> P v
     | CInSpace kw => forall v, in_list (split v [32]) kw = true -> P v
+    | CExact kw => forall v, mem v kw = true -> P v
+    | CRec _ _ _ => False
     end.
   Definition env_ok (env : henv) : Prop := forall e, In e env -> forall v, snd e v = true -> P v.
 
   Lemma eval_def_ok env d : env_ok env -> Forall cond_ok d -> forall v, eval_def acceptors env d v = true -> P v.
   Proof.
     intros He Hd v H. unfold eval_def in H. apply existsb_exists in H as (c & Hc & Hv).
-    rewrite Forall_forall in Hd. specialize (Hd c Hc). destruct c as [nm|fn|kw|kw]; cbn [eval_cond cond_ok] in *.
+    rewrite Forall_forall in Hd. specialize (Hd c Hc). destruct c as [nm|fn|kw|kw|kw|sep mx fns]; cbn [eval_cond cond_ok] in *.
     - exact (Hd v Hv).
     - unfold call_env in Hv. destruct (find _ env) as [e|] eqn:Ef; [|discriminate]. apply find_some in Ef as [Ein _]. exact (He e Ein v Hv).
     - exact (Hd v Hv).
     - exact (Hd v Hv).
+    - exact (Hd v Hv).
+    - contradiction.
   Qed.
 
   Theorem build_handlers_ok : forall defs env, env_ok env -> Forall (fun nd => Forall cond_ok (snd nd)) defs ->
@@ -71,3 +75,142 @@ Section Env.
     cbn [snd] in Hv. exact (eval_def_ok env d He Hd1 v Hv).
   Qed.
 End Env.
+
+(* ---- two levels: every handler accepts only values with property P; the handlers flagged clean accept only values without
+   a marked character, which is what recursiveCheck needs of its sub-handlers ---- *)
+Section Env2.
+  Variable acceptors : list (String.string * re).
+  Variable mk : N -> bool.
+  Hypothesis mk_ascii : forall c, mk c = true -> c < 128.
+  Hypothesis mk_not_upper : forall c, mk c = true -> is_upper c = false.
+  Hypothesis mk_not_lower : forall c, is_lower c = true -> mk c = false.
+  Hypothesis mk_table : forallb (fun pr => negb (mk (snd pr))) lower_pairs = true.
+  Hypothesis mk_space : forall r, is_space_rune r = true -> mk r = false.
+  Hypothesis mk_comma : mk 44 = false.
+  Hypothesis mk_blank : mk 32 = false.
+
+  Definition Cl (v : bytes) : Prop := D mk v = [].
+  Variable P : bytes -> Prop.
+  Hypothesis Cl_P : forall v, Cl v -> P v.
+  Variable rxclean : list String.string.
+  Hypothesis rx_P : forall nm v, acceptor acceptors nm v = true -> P v.
+  Hypothesis rx_Cl : forall nm, existsb (String.eqb nm) rxclean = true -> forall v, acceptor acceptors nm v = true -> Cl v.
+
+  (* the data of a condition is harmless: keywords without marked characters, an unmarked separator *)
+  Definition cond_data_ok (c : hcond) : Prop :=
+    match c with
+    | CIn kw | CInSpace kw | CExact kw => forall k, In k kw -> D mk k = []
+    | CRec sep _ _ => mk sep = false
+    | _ => True
+    end.
+
+  Definition inv (env : henv) (clset : list String.string) : Prop :=
+    (forall e, In e env -> forall v, snd e v = true -> P v) /\
+    (forall e, In e env -> existsb (String.eqb (fst e)) clset = true -> forall v, snd e v = true -> Cl v).
+
+  Lemma D_nil_clean v : D mk v = [] -> clean (fun c => negb (mk c)) v.
+  Proof.
+    induction v as [|c v IH]; intros H; [constructor|]. unfold D in H. cbn [filter] in H. fold (D mk v) in H.
+    destruct (mk c) eqn:E; [discriminate|]. constructor; [rewrite E; reflexivity | apply IH; exact H].
+  Qed.
+  Lemma clean_D_nil v : clean (fun c => negb (mk c)) v -> D mk v = [].
+  Proof.
+    induction 1 as [|c v Hc Hv IH]; [reflexivity|]. unfold D. cbn [filter]. apply negb_true_iff in Hc. rewrite Hc. exact IH.
+  Qed.
+
+  Lemma call_clean env clset fn v : inv env clset -> existsb (String.eqb fn) clset = true -> call_env env fn v = true -> Cl v.
+  Proof.
+    intros [_ I2] Hfn H. unfold call_env in H. destruct (find (fun e => String.eqb (fst e) fn) env) as [e|] eqn:Ef; [|discriminate].
+    apply find_some in Ef as [Ein Eeq]. apply String.eqb_eq in Eeq. apply (I2 e Ein); [rewrite Eeq; exact Hfn | exact H].
+  Qed.
+
+  Lemma rec_Cl env clset sep mx fns v : inv env clset -> mk sep = false ->
+    forallb (fun fn => existsb (String.eqb fn) clset) fns = true ->
+    eval_cond acceptors env (CRec sep mx fns) v = true -> Cl v.
+  Proof.
+    intros Hinv Hsep Hfns H. cbn [eval_cond] in H. apply andb_true_iff in H as [_ H].
+    assert (Hparts : Forall (clean (fun c => negb (mk c))) (split v [sep])).
+    { apply (recursive_check_clean (fun c => negb (mk c)) (split v [sep]) (map (call_env env) fns)); [|exact H].
+      intros j Hj s Hs. apply in_map_iff in Hj as (fn & <- & Hfn). rewrite forallb_forall in Hfns.
+      apply D_nil_clean. exact (call_clean env clset fn s Hinv (Hfns fn Hfn) Hs). }
+    unfold Cl. assert (HS : concat (map (D mk) (split v [sep])) = D mk v) by (apply D_split; assumption).
+    rewrite <- HS. apply concat_nil. intros x Hx. apply in_map_iff in Hx as (part & <- & Hpart).
+    rewrite Forall_forall in Hparts. apply clean_D_nil. exact (Hparts part Hpart).
+  Qed.
+
+  Lemma data_Cl c v : cond_data_ok c ->
+    match c with
+    | CIn kw => kw_handler kw v = true -> Cl v
+    | CInSpace kw => in_list (split v [32]) kw = true -> Cl v
+    | CExact kw => mem v kw = true -> Cl v
+    | _ => True
+    end.
+  Proof.
+    destruct c as [nm|fn|kw|kw|kw|sep mx fns]; cbn [cond_data_ok]; intros Hd; try exact Logic.I.
+    - intros H. apply (kw_handler_marked mk) with (kw := kw); assumption.
+    - intros H. apply (in_space_marked mk) with (kw := kw); assumption.
+    - intros H. apply mem_In in H. exact (Hd v H).
+  Qed.
+
+  Lemma cond_P env kept clset c v : inv env clset -> cond_data_ok c -> cond_admissible kept clset c = true ->
+    eval_cond acceptors env c v = true -> P v.
+  Proof.
+    intros Hinv Hd Ha H. pose proof (data_Cl c v Hd) as HD.
+    destruct c as [nm|fn|kw|kw|kw|sep mx fns]; cbn [eval_cond] in H.
+    - exact (rx_P nm v H).
+    - unfold call_env in H. destruct (find _ env) as [e|] eqn:Ef; [|discriminate]. apply find_some in Ef as [Ein _].
+      exact (proj1 Hinv e Ein v H).
+    - apply Cl_P. exact (HD H).
+    - apply Cl_P. exact (HD H).
+    - apply Cl_P. exact (HD H).
+    - apply Cl_P. cbn [cond_admissible] in Ha. cbn [cond_data_ok] in Hd. exact (rec_Cl env clset sep mx fns v Hinv Hd Ha H).
+  Qed.
+
+  Lemma cond_Cl env clset c v : inv env clset -> cond_data_ok c -> cond_clean rxclean clset c = true ->
+    eval_cond acceptors env c v = true -> Cl v.
+  Proof.
+    intros Hinv Hd Hc H. pose proof (data_Cl c v Hd) as HD.
+    destruct c as [nm|fn|kw|kw|kw|sep mx fns]; cbn [eval_cond] in H; cbn [cond_clean] in Hc.
+    - exact (rx_Cl nm Hc v H).
+    - exact (call_clean env clset fn v Hinv Hc H).
+    - exact (HD H).
+    - exact (HD H).
+    - exact (HD H).
+    - cbn [cond_data_ok] in Hd. exact (rec_Cl env clset sep mx fns v Hinv Hd Hc H).
+  Qed.
+
+  Theorem keep_defs_inv : forall defs kept clset env,
+    inv env clset -> (forall x, existsb (String.eqb x) clset = true -> existsb (String.eqb x) kept = true) ->
+    (forall e, In e env -> existsb (String.eqb (fst e)) kept = true) ->
+    Forall (fun nd => Forall cond_data_ok (snd nd)) defs ->
+    inv (build_handlers acceptors (fst (keep_defs rxclean defs kept clset)) env) (snd (keep_defs rxclean defs kept clset)).
+  Proof.
+    induction defs as [|[n d] defs IH]; intros kept clset env Hinv Hsub Hnames Hdata; cbn [keep_defs]; [exact Hinv|].
+    inversion Hdata as [|? ? Hd Hrest]; subst. cbn [snd] in Hd.
+    destruct (forallb (cond_admissible kept clset) d && negb (existsb (String.eqb n) kept)) eqn:Eadm; [|apply IH; assumption].
+    apply andb_true_iff in Eadm as [Ead Enew]. apply negb_true_iff in Enew.
+    set (clset' := if forallb (cond_clean rxclean clset) d then n :: clset else clset).
+    destruct (keep_defs rxclean defs (n :: kept) clset') as [l cs] eqn:Eq. cbn [fst snd build_handlers].
+    specialize (IH (n :: kept) clset' (env ++ [(n, eval_def acceptors env d)])). rewrite Eq in IH. cbn [fst snd] in IH. apply IH; [| | |exact Hrest].
+    - (* the extended environment *)
+      assert (HP : forall v, eval_def acceptors env d v = true -> P v).
+      { intros v Hv. unfold eval_def in Hv. apply existsb_exists in Hv as (c & Hc & Hcv).
+        rewrite forallb_forall in Ead. rewrite Forall_forall in Hd. exact (cond_P env kept clset c v Hinv (Hd c Hc) (Ead c Hc) Hcv). }
+      split.
+      + intros e Hin v Hv. apply in_app_or in Hin as [Hin|[<-|[]]]; [exact (proj1 Hinv e Hin v Hv) | exact (HP v Hv)].
+      + intros e Hin Hcl v Hv. apply in_app_or in Hin as [Hin|[<-|[]]].
+        * (* an earlier entry: its name is not n, so it was flagged before *)
+          apply (proj2 Hinv e Hin); [|exact Hv]. subst clset'. destruct (forallb (cond_clean rxclean clset) d); [|exact Hcl].
+          cbn [existsb] in Hcl. apply orb_true_iff in Hcl as [Hcl|Hcl]; [|exact Hcl]. exfalso.
+          apply String.eqb_eq in Hcl. pose proof (Hnames e Hin) as Hk. rewrite Hcl in Hk. congruence.
+        * cbn [fst snd] in *. subst clset'. destruct (forallb (cond_clean rxclean clset) d) eqn:Ecl.
+          -- unfold eval_def in Hv. apply existsb_exists in Hv as (c & Hc & Hcv).
+             rewrite forallb_forall in Ecl. rewrite Forall_forall in Hd. exact (cond_Cl env clset c v Hinv (Hd c Hc) (Ecl c Hc) Hcv).
+          -- exfalso. specialize (Hsub n Hcl). congruence.
+    - intros x Hx. subst clset'. cbn [existsb]. destruct (forallb (cond_clean rxclean clset) d).
+      + cbn [existsb] in Hx. apply orb_true_iff in Hx as [Hx|Hx]; [rewrite Hx; reflexivity | rewrite (Hsub x Hx); apply orb_true_r].
+      + rewrite (Hsub x Hx). apply orb_true_r.
+    - intros e Hin. cbn [existsb]. apply in_app_or in Hin as [Hin|[<-|[]]]; [rewrite (Hnames e Hin); apply orb_true_r|].
+      cbn [fst]. rewrite String.eqb_refl. reflexivity.
+  Qed.
+End Env2.
